@@ -71,6 +71,21 @@ CHECKS = {
              'co-executed. Regex classifiers are modelled by direct recognisers (small-scope exhaustive comparison).',
         technique='Rocq proof (induction over the line list, state invariant) + exhaustive small-scope co-execution against the Python code',
     ),
+    'C07': dict(
+        ref='5.7',
+        text='Theorems in coq/Properties/C07.v for every text: the line-tracking parser returns (its exception branch is '
+             'unreachable because a declaration line always splits into a non-empty name); BaseParagraph.from_fields never '
+             'reaches its assertion for any list of fields - a duplicated name is renamed to a suffixed name that is fresh '
+             '(pigeonhole over the injective decimal suffixes), reserved names are ordinary unknown fields - hence '
+             'DebianCopyright.from_text succeeds and its dictionary form, rendering and validity are values. Every raising '
+             'Python operation of the modelled code is a Raise branch of the model; the model is co-executed with '
+             'copyright.py / debcon.py / deb822.py (all observables, exception classes included) on near-miss control files, '
+             'all sequences of <=5/6 lines over 8 line kinds, MIME-looking and raw Unicode texts, and every entry point is '
+             'called twice on the implementation (no exception, equal results).',
+        note=TRUST + 'The header-style parser goes through a model of the standard email package (environment, validated by '
+             'co-execution); interpreter limits (recursion on deeply nested MIME containers) are outside the model.',
+        technique='Rocq proof (state invariant, pigeonhole for fresh names) + differential co-execution against the Python code',
+    ),
     'C15': dict(
         ref='5.15',
         text='Theorems in coq/Properties/C15.v for all relationship trees, names and candidates: simple relationships answer '
